@@ -64,6 +64,11 @@ static void run_all(secp256k1_context *ctx, int nvariants) {
         { unsigned char k[32], t[32]; memcpy(k, key, 32); memcpy(t, tweak, 32); BEGIN(); SECRET(k, 32); SECRET(t, 32); ret = secp256k1_ec_seckey_tweak_mul(ctx, k, t); PUBLIC(&ret, sizeof ret); PUBLIC(k, 32); END("ec_seckey_tweak_mul", v); REQUIRE(ret); }
         BEGIN(); SECRET(key, 32); ret = secp256k1_keypair_create(ctx, &kp, key); PUBLIC(&ret, sizeof ret); PUBLIC(key, 32); END("keypair_create", v); REQUIRE(ret);
         { secp256k1_keypair k2 = kp; BEGIN(); ret = secp256k1_keypair_xonly_tweak_add(ctx, &k2, msg); PUBLIC(&ret, sizeof ret); PUBLIC(&k2, sizeof k2); END("keypair_xonly_tweak_add", v); REQUIRE(ret); }
+        /* public tweaks with special values (0, 1): shortcuts taken for them must not branch on the secret half either */
+        { secp256k1_keypair k2 = kp; unsigned char zt[32]; memset(zt, 0, 32); BEGIN(); ret = secp256k1_keypair_xonly_tweak_add(ctx, &k2, zt); PUBLIC(&ret, sizeof ret); PUBLIC(&k2, sizeof k2); END("keypair_xonly_tweak_add_zero_tweak", v); REQUIRE(ret); }
+        { secp256k1_keypair k2 = kp; unsigned char zt[32]; memset(zt, 0, 32); zt[31] = 1; BEGIN(); ret = secp256k1_keypair_xonly_tweak_add(ctx, &k2, zt); PUBLIC(&ret, sizeof ret); PUBLIC(&k2, sizeof k2); END("keypair_xonly_tweak_add_tweak_one", v); REQUIRE(ret); }
+        { unsigned char k[32], zt[32]; memcpy(k, key, 32); memset(zt, 0, 32); BEGIN(); SECRET(k, 32); ret = secp256k1_ec_seckey_tweak_add(ctx, k, zt); PUBLIC(&ret, sizeof ret); PUBLIC(k, 32); END("ec_seckey_tweak_add_zero_tweak", v); REQUIRE(ret); }
+        { unsigned char k[32], zt[32]; memcpy(k, key, 32); memset(zt, 0, 32); zt[31] = 1; BEGIN(); SECRET(k, 32); ret = secp256k1_ec_seckey_tweak_mul(ctx, k, zt); PUBLIC(&ret, sizeof ret); PUBLIC(k, 32); END("ec_seckey_tweak_mul_tweak_one", v); REQUIRE(ret); }
         { unsigned char k[32]; secp256k1_keypair k2 = kp; BEGIN(); SECRET(&k2, sizeof k2); ret = secp256k1_keypair_sec(ctx, k, &k2); PUBLIC(&ret, sizeof ret); PUBLIC(k, 32); END("keypair_sec", v); REQUIRE(ret); }
         BEGIN(); ret = secp256k1_schnorrsig_sign32(ctx, sig64, msg, &kp, NULL); PUBLIC(&ret, sizeof ret); PUBLIC(sig64, 64); END("schnorrsig_sign32", v); REQUIRE(ret);
         BEGIN(); SECRET(aux, 32); ret = secp256k1_schnorrsig_sign32(ctx, sig64, msg, &kp, aux); PUBLIC(&ret, sizeof ret); PUBLIC(sig64, 64); PUBLIC(aux, 32); END("schnorrsig_sign32_aux", v); REQUIRE(ret);
